@@ -24,8 +24,11 @@ SUPPORTED = [
                                  "context": {"includeDeclaration": True}}),
     ("textDocument/prepareRename", {"textDocument": {"uri": URI}, "position": {"line": 0, "character": 6}}),
 ]
-UNKNOWN_REQ = ["workspace/symbol", "foo/bar", "textDocument/documentHighlight"]
-UNKNOWN_NOTE = ["$/setTrace", "foo/note", "workspace/didChangeConfiguration"]
+UNKNOWN_REQ = ["workspace/symbol", "foo/bar", "textDocument/documentHighlight", "$/progressReport", "$/cancelRequest",
+               "$/verif/other", "window/workDoneProgress/create", "Shutdown", "textDocument/Hover", "initialized", "exit",
+               "textDocument/didOpen", "shutdown2", "x"]
+UNKNOWN_NOTE = ["$/setTrace", "foo/note", "workspace/didChangeConfiguration", "$/cancelRequest", "$/progress", "Exit",
+                "initialize", "shutdown", "textDocument/hover", "exit2"]
 
 
 def letter_message(letter, next_id, rng):
@@ -306,19 +309,29 @@ def c20_cases(run):
     size = 1500 if thorough else 300
     violations, pairs = [], []
     hists = [(c20_history(rng, size if i % 4 else 60), i % 2 == 0) for i in range(n_hist)]
+    # a flood on one document: many whole-document versions with many diagnostics each, then a clean version
+    # (only open / full-text changes / probes: the last published diagnostics must describe the last version)
+    for k in range(2 if not thorough else 4):
+        nerr = 30 + 10 * k
+        bad = lambda v: "proc main() {\n" + "".join(f"  undefined{v}_{j} := 1;\n" for j in range(nerr)) + "}\n"
+        flood = [f"O0={_hex(bad(0))}"] + [f"C0=F:{_hex(bad(v))}" for v in range(1, 200 + 100 * k)] + [f"C0=F:{_hex('proc main() {}' + chr(10))}", "P0"]
+        hists.append((flood, True))
+    slow = [i % 3 == 1 or i >= n_hist for i in range(len(hists))]
     # sequential in-process reference
     seq_in = "\n".join(f"SEQ {1 if d else 0} " + " ".join(t) for t, d in hists) + "\n"
     p = subprocess.run([HARNESS, "run"], input=seq_in, stdout=subprocess.PIPE, stderr=subprocess.DEVNULL, text=True, env=ENV, timeout=3000)
     seq_out = p.stdout.split("\n")[:len(hists)]
     skipped = 0
 
-    def one(h):
-        toks, d = h
+    def one(job):
+        (toks, d), sl = job
         data = b"".join(lc.frame(m) for m in c20_messages(toks, d))
-        return lc.run_session([data], timeout=120, workers=None)  # default multi-threaded runtime (all cores)
+        # default multi-threaded runtime (all cores); slow = the client does not read until it has written
+        # everything (or 1.5 s have passed): the stdout pipe, the responder channel and the broker fill up
+        return lc.run_session([data], timeout=120, workers=None, read_after=1.5 if sl else None)
 
     with ThreadPoolExecutor(max_workers=4) as ex:
-        results = list(ex.map(one, hists))
+        results = list(ex.map(one, list(zip(hists, slow))))
     n_msgs = 0
     for (toks, d), ref, r in zip(hists, seq_out, results):
         line = f"{1 if d else 0} " + " ".join(toks)
@@ -358,6 +371,7 @@ def c20_cases(run):
         pairs.append(("SPECNETTEXT " + line, probes))
         pairs.append((f"JUDGENETSCHED {1 if d else 0} {6 if not thorough else 12} " + " ".join(toks[:80]), "ok"))
     run.stats_extra["c20_histories"] = len(hists)
+    run.stats_extra["c20_slow_client_histories"] = sum(slow)
     run.stats_extra["c20_messages"] = n_msgs
     run.stats_extra["c20_skipped_reference_panics"] = skipped
     return pairs, violations
